@@ -177,7 +177,7 @@ func (p *Path) applySpec(in ssa.Instruction, site string, spec *FuncSpec, what s
 	// site ghosts "before"
 	p.siteGhosts(in, "before")
 	// preconditions
-	for k, r := range spec.Requires {
+	for k, r := range spec.allRequires() {
 		t, err := c.EvalBool(r.E)
 		if err != nil {
 			p.specError("requires of "+what, r, err)
@@ -216,6 +216,12 @@ func (p *Path) applySpec(in ssa.Instruction, site string, spec *FuncSpec, what s
 		p.frameCheck(site, locs)
 	} else if fx.spec != nil && !fx.spec.ModAll {
 		p.oblige("frame", site, "callee modifies everything but caller has a modifies clause", "false")
+	}
+	// iterator callee (e.g. slog.Record.Attrs): it calls the closure it is handed any number of times. Loop rule on the
+	// callback: the closure's function-level invariants hold now, the closure's modifies set is havocked, and the
+	// invariants hold afterwards (the closure itself is verified to preserve them).
+	if itp := spec.Attrs["iterator"]; itp != "" {
+		p.iteratorCall(in, site, itp, names, args)
 	}
 	// environment step for blocking callees
 	if spec.Attrs["blocking"] == "yes" {
@@ -348,7 +354,7 @@ func (p *Path) applySpec(in ssa.Instruction, site string, spec *FuncSpec, what s
 		}
 	}
 	c2 := &SpecCtx{p: p, st: &p.st, old: &pre, vars: rvars, pkg: cpkg, closureCells: closureCells(callee, bvals)}
-	for _, e := range spec.Ensures {
+	for _, e := range spec.allEnsures() {
 		p.assumeClause(c2, e, "ensures of "+what)
 	}
 	// dynamic dispatch refinement: if the receiver's dynamic type is a repo type whose method is under contract,
@@ -404,7 +410,7 @@ func (p *Path) dispatchFacts(what string, args []Val, res Val, resTy *types.Tupl
 		}
 		c := &SpecCtx{p: p, st: &p.st, old: pre, vars: vars, pkg: fn.Pkg.Pkg}
 		tag := env.typeTagOf(rt)
-		for _, e := range spec.Ensures {
+		for _, e := range spec.allEnsures() {
 			t, err := c.EvalBool(e.E)
 			if err != nil {
 				continue
@@ -677,7 +683,9 @@ func (p *Path) builtin(in ssa.Instruction, b *ssa.Builtin, cc *ssa.CallCommon) V
 				p.oblige("frame", site, "in-place append writes fresh memory or stays within the modifies clause", f)
 			}
 		}
-		return p.appendOp(in, s, t, resTy)
+		rv := p.appendOp(in, s, t, resTy)
+		p.foldAppend(in, cc, s, t, rv.T)
+		return rv
 	case "copy":
 		dst, src := arg(0), arg(1)
 		site := p.fx.site(in, "call(copy)")
@@ -920,4 +928,109 @@ func (p *Path) lockInvCheck(in ssa.Instruction, what, site string) {
 		}
 		p.oblige("lockinv", site, "lock invariant holds at release: "+li.Src, t)
 	}
+}
+
+func (p *Path) iteratorCall(in ssa.Instruction, site, param string, names []string, args []Val) {
+	fx := p.fx
+	env := fx.env
+	idx := -1
+	for i, n := range names {
+		if n == param {
+			idx = i
+		}
+	}
+	if idx < 0 {
+		p.unsupported("iterator parameter "+param+" not found", in)
+		return
+	}
+	mc, ok := p.closures[args[idx].T]
+	if !ok {
+		p.unsupported("iterator callback is not a closure created in this function", in)
+		return
+	}
+	cfn := mc.Fn.(*ssa.Function)
+	key := specKeyOf(cfn)
+	cs := env.specs.Funcs[key]
+	if cs == nil {
+		p.oblige("nocontract", site, "no contract for iterator callback "+key, "false")
+		p.havocAll()
+		return
+	}
+	var bvals []Val
+	for _, b := range mc.Bindings {
+		bvals = append(bvals, p.val(b))
+	}
+	mk := func() *SpecCtx {
+		return &SpecCtx{p: p, st: &p.st, vars: map[string]Val{}, pkg: fx.pkgTypes(), closureCells: closureCells(cfn, bvals)}
+	}
+	c := mk()
+	for k, inv := range cs.FnInvs {
+		t, err := c.EvalBool(inv.E)
+		if err != nil {
+			p.specError("iterator invariant of "+key, inv, err)
+			continue
+		}
+		lab := inv.Label
+		if lab == "" {
+			lab = fmt.Sprint(k + 1)
+		}
+		p.oblige("iter.inv."+lab, site, inv.Src, t)
+		p.assume(t)
+	}
+	// also the callback's plain preconditions (they may not mention its parameters)
+	for k, r := range cs.Requires {
+		t, err := c.EvalBool(r.E)
+		if err != nil {
+			continue // mentions the callback's parameters: checked in the closure's own verification context only
+		}
+		p.oblige(fmt.Sprintf("iter.pre.%d", k+1), site, r.Src, t)
+	}
+	// havoc the callback's write set
+	var locs []Loc
+	for i, m := range cs.Modifies {
+		ls, err := safeLocs(c, m)
+		if err != nil {
+			p.specError("modifies of "+key, Clause{Src: cs.ModSrc[i], File: cs.File, Line: cs.Line}, err)
+			continue
+		}
+		locs = append(locs, ls...)
+	}
+	p.frameCheck(site, locs)
+	oldNow := p.st.now
+	nn := p.fx.fresh("now")
+	p.declare(nn, "Int")
+	p.assume(fmt.Sprintf("(>= %s %s)", nn, oldNow))
+	p.st.now = nn
+	heaps := map[string][]Loc{}
+	var order []string
+	for _, l := range locs {
+		if _, ok := heaps[l.Heap]; !ok {
+			order = append(order, l.Heap)
+		}
+		heaps[l.Heap] = append(heaps[l.Heap], l)
+	}
+	for _, h := range fx.v.writeSet(cfn) {
+		if _, ok := heaps[h]; !ok && heapSortTable[h] != "" {
+			order = append(order, h)
+			heaps[h] = nil
+		}
+	}
+	for _, hn := range order {
+		oldH := p.heap(hn)
+		newH := p.havocHeap(hn)
+		var ds []string
+		for _, l := range heaps[hn] {
+			ds = append(ds, locCond(l, "a"))
+		}
+		mod := "false"
+		if len(ds) > 0 {
+			mod = "(or " + strings.Join(ds, " ") + ")"
+		}
+		p.assume(fmt.Sprintf("(forall ((a Ref)) (! (=> (and (<= (stamp a) %s) (not %s)) (= (select %s a) (select %s a))) :pattern ((select %s a))))", oldNow, mod, newH, oldH, newH))
+	}
+	c2 := mk()
+	for _, inv := range cs.FnInvs {
+		p.assumeClause(c2, inv, "iterator invariant of "+key)
+	}
+	env.assumptions["iterator rule: "+shortKey(key)+" is called any number of times; its invariants are preserved (verified on the closure)"] = true
 }
